@@ -47,3 +47,83 @@ func ZZ_C10_RequestQueue() {
 	zzvf.RacePair("race/RequestQueue/"+zzQOps10[a]+"|"+zzQOps10[b], zzQOp(q, a), zzQOp(q, b))
 	zzvf.Reach("RequestQueue")
 }
+
+// ---- RequestDoubleQueue (same pattern) ----
+
+// the first zzDQPair operations are the point operations + size (enqueue, dequeue, clear, size) and
+// are paired by RacePair; every public method runs under the self-deadlock watchdog
+var zzDQOps10 = []string{"put1", "put2", "putforce1", "putforce2", "get", "getnowait", "clear", "size", "size1", "size2",
+	"setcapacity", "getcapacity1", "getcapacity2", "gettimeout", "tostring1", "tostring2"}
+
+const zzDQPair = 13
+
+func zzDQOp(q *RequestDoubleQueue, op string) func() {
+	switch op {
+	case "put1":
+		return func() { q.Put1(int64(7)) }
+	case "put2":
+		return func() { q.Put2(int64(8)) }
+	case "putforce1":
+		return func() { q.PutForce1(int64(9)) }
+	case "putforce2":
+		return func() { q.PutForce2(int64(10)) }
+	case "get":
+		return func() { q.Get() } // only chosen when both operations find an element (see below)
+	case "getnowait":
+		return func() { q.GetNoWait() }
+	case "clear":
+		return func() { q.Clear() }
+	case "size":
+		return func() { q.Size() }
+	case "size1":
+		return func() { q.Size1() }
+	case "size2":
+		return func() { q.Size2() }
+	case "setcapacity":
+		return func() { q.SetCapacity(5, 6) }
+	case "getcapacity1":
+		return func() { q.GetCapacity1() }
+	case "getcapacity2":
+		return func() { q.GetCapacity2() }
+	case "gettimeout":
+		return func() { q.GetTimeout(3) } // the queue is not empty: returns at once
+	case "tostring1":
+		return func() { q.ToString1() }
+	case "tostring2":
+		return func() { q.ToString2() }
+	}
+	panic("zzDQOp: " + op)
+}
+
+// zzDQPre: capacities 4 / 4 (PutForce then evicts), n+2 elements in the first and n in the second
+// queue: two elements at least, so that a blocking Get in either operation returns
+func zzDQPre(n int) *RequestDoubleQueue {
+	q := NewRequestDoubleQueue(4, 4)
+	for i := 0; i < n; i++ {
+		q.Put1(int64(i))
+		q.Put2(int64(50 + i))
+	}
+	q.Put1(int64(100))
+	q.Put1(int64(101))
+	return q
+}
+
+// lock discipline of the double request queue: every pair of its point operations on one shared
+// instance either touches disjoint state or is ordered by a common lock; no public method
+// re-acquires a lock it holds
+func ZZ_C10_RequestDoubleQueue() {
+	n := zzvf.Choose(3)
+	a := zzvf.Choose(len(zzDQOps10))
+	opA := zzDQOps10[a]
+	zzvf.Guard("deadlock/RequestDoubleQueue/"+opA, zzDQOp(zzDQPre(n), opA))
+	if a < zzDQPair {
+		opB := zzDQOps10[a+zzvf.Choose(zzDQPair-a)]
+		if (opA == "get" || opB == "get") && (opA == opB || opA == "getnowait" || opA == "clear" || opB == "getnowait" || opB == "clear") {
+			zzvf.Reach("RequestDoubleQueue")
+			return // the other operation could empty the queue and leave Get blocked natively
+		}
+		q := zzDQPre(n)
+		zzvf.RacePair("race/RequestDoubleQueue/"+opA+"|"+opB, zzDQOp(q, opA), zzDQOp(q, opB))
+	}
+	zzvf.Reach("RequestDoubleQueue")
+}
